@@ -601,6 +601,11 @@ func stateFoundArrayItemBegin(s *Scanner, c byte) state {
 	}
 
 	r := stateBeginValue(s, c)
+	if r != scanContinue && s.annotation == annotationNone {
+		// A new item starts: annotations are allowed again, even if the previous
+		// item was a non-empty array (which forbids an annotation after its `]`).
+		s.allowAnnotation = true
+	}
 	switch r { //nolint:exhaustive // It's okay.
 	case scanBeginLiteral:
 		s.found(lexeme.ArrayItemBegin)
